@@ -2,6 +2,10 @@ import json, sys
 TPL = open('/verif/tools/seed_prompt.txt').read()
 props = {json.loads(l)['id']: json.loads(l) for l in open('/verif/properties.jsonl')}
 tests = {
+ 'C01': 'tests/test_transactions.py tests/test_script.py tests/test_keys.py',
+ 'C06': 'tests/test_transactions.py tests/test_blocks.py tests/test_script.py tests/test_encoding.py',
+ 'C07': 'tests/test_wallets.py tests/test_transactions.py', 'C08': 'tests/test_wallets.py tests/test_db.py',
+ 'C10': 'tests/test_wallets.py tests/test_transactions.py',
  'C02': 'tests/test_transactions.py tests/test_script.py tests/test_keys.py',
  'C03': 'tests/test_keys.py tests/test_wallets.py', 'C04': 'tests/test_keys.py tests/test_encoding.py tests/test_transactions.py',
  'C05': 'tests/test_transactions.py tests/test_script.py tests/test_keys.py', 'C09': 'tests/test_wallets.py tests/test_keys.py',
